@@ -458,9 +458,11 @@ class UTPM(Ring, RawAlgorithmsMixIn):
 
     def __pow__(self,r):
         if isinstance(r, UTPM):
-            if numpy.iscomplexobj(r.data) and not numpy.iscomplexobj(self.data):
-                # the principal value: log of a negative real base is complex
-                return UTPM.exp(UTPM.log(UTPM(self.data.astype(r.data.dtype)))*r)
+            dtype = numpy.result_type(self.data.dtype, r.data.dtype)
+            if dtype.kind in 'fc' and dtype != self.data.dtype:
+                # the logarithm in the type of the result: a complex exponent needs the principal value of
+                # the log of a negative real base, a double precision exponent a double precision log
+                return UTPM.exp(UTPM.log(UTPM(self.data.astype(dtype)))*r)
             return UTPM.exp(UTPM.log(self)*r)
         else:
             x_data = self.data
@@ -580,8 +582,11 @@ class UTPM(Ring, RawAlgorithmsMixIn):
         else:
             self_data, rhs_data = UTPM._broadcast_arrays(self.data, rhs.data)
             retval = self.clone()
+            rhs0 = rhs_data[0,:,...]
+            if retval.data.dtype.kind in 'fc' and rhs0.dtype != retval.data.dtype and numpy.can_cast(rhs0.dtype, retval.data.dtype):
+                rhs0 = rhs0.astype(retval.data.dtype)      # (1/y_0 in the precision of x, see _truediv)
             for d in range(D):
-                retval.data[d,:,...] = 1./ rhs_data[0,:,...] * ( self.data[d,:,...] - numpy.sum(retval.data[:d,:,...] * rhs_data[d:0:-1,:,...], axis=0))
+                retval.data[d,:,...] = 1./ rhs0 * ( self.data[d,:,...] - numpy.sum(retval.data[:d,:,...] * rhs_data[d:0:-1,:,...], axis=0))
             self.data[...] = retval.data[...]
         return self
 
